@@ -1258,7 +1258,7 @@ def audit(out: OutputBuffer, aconf: AuditConf, sshv: Optional[int] = None, print
                 payload_txt = '"{}"'.format(repr(payload).lstrip('b')[1:-1])
             if payload_txt == 'Protocol major versions differ.':
                 if sshv == 2 and aconf.ssh1:
-                    ret = audit(out, aconf, 1)
+                    ret = audit(out, aconf, 1, print_target=print_target)
 
                     # If we're running against multiple targets, the worker thread returns the buffered report to the main thread, which prints it between the delimiters.
                     if len(aconf.target_list) == 0:
@@ -1285,7 +1285,7 @@ def audit(out: OutputBuffer, aconf: AuditConf, sshv: Optional[int] = None, print
         except Exception:
             out.fail("Failed to parse server's public key message.  Stack trace:\n%s" % str(traceback.format_exc()))
             return exitcodes.CONNECTION_ERROR
-        program_retval = output(out, aconf, banner, header, pkm=pkm)
+        program_retval = output(out, aconf, banner, header, pkm=pkm, print_target=print_target)
     elif sshv == 2:
         try:
             kex = SSH2_Kex.parse(out, payload)
